@@ -29,6 +29,7 @@ DOC = {
     'tqdm.trange': 'tqdm.trange(n) iterates like range(n)',
     'numpy.where': 'np.where(mask) / np.nonzero(mask) / mask.nonzero() of a 1-D boolean array: (indices of the true entries, increasing,)',
     'numpy.any': 'np.any(M, axis=0) of a 2-D boolean array given as a list of equally long rows: entry j is true iff some row has a true entry j',
+    'min/max': 'builtin min / max of an opaque scalar and numbers: the opaque value is a real number (not NaN)',
     'array==scalar': '1-D array == scalar compares element-wise (elements are hashable scalars compared by value)',
 }
 
